@@ -7,7 +7,7 @@
   rejects (rather than answers) a conditioning event that is itself impossible.
 
   Everything below is about the executable model `Y0.Cf.idcStar` (Y0/Model/IdcStar.lean: the code after the three
-  `fix:` commits to idc_star.py and the `fix:` a54a0f5 to `Expression.conditional` listed in known_findings.jsonl), which the correspondence check (harness/props/c08.py) compares with
+  `fix:` commits to idc_star.py, `fix:` b76144c (sorted re-association order), `fix:` 1834c39 (the rule-2 test conditions on the other conditions) and the `fix:` a54a0f5 to `Expression.conditional` listed in known_findings.jsonl), which the correspondence check (harness/props/c08.py) compares with
   the real `idc_star` on every run under every iteration order of the sets the Python iterates over.
 
   PROVED (all graphs, events, fuels, iteration orders):
@@ -59,6 +59,16 @@
                                                  noise space (`Fscm.prob_exchange_marginal`: consistency + independence of disjoint noise
                                                  coordinates), WITHOUT any positivity assumption on the kernels; its graphical premise
                                                  is read off the model's own d-separation verdict (`sep_facts_of_no_path`).
+    * `idcstar_exchange_licensed`                THE EXCHANGE OF LINE 4 IS LICENSED BY THE GRAPHICAL PREMISE OF RULE 2 (after `fix:` 1834c39): whenever
+                                                 the loop picks the condition `c` among the conditions `cs`, every outcome `o ≠ c` is M-SEPARATED
+                                                 from `c` (no m-connecting path: `MG.MConnPath`, the specification of C04, via
+                                                 `dsep_iff_mseparated`) in the counterfactual graph without the edges leaving `c`, GIVEN THE OTHER
+                                                 CONDITIONS and the self-intervened nodes (`rule2Given`).  Before the fix the other conditions were
+                                                 not conditioned on (finding exchange:separation, now `fixed:`).
+    * `idcstar_sound_fragment_exchange_multi_partial`  the widened exchange fragment (`InFragmentXs`, decidable `inFragmentXsB`: observational query
+                                                 with ANY number of conditions on which line 4 exchanges one): there the exchanged condition is one of
+                                                 the conditions and the premise of rule 2 given the others holds for every outcome.  PARTIAL: the
+                                                 semantic equality is proved for ONE condition only (`idcstar_sound_fragment_exchange`), see OPEN (a).
     * vocabulary (C06 part) `idcstar_vocab`      every leaf of a returned estimand is a single-world term
 
   -- OPEN (stated in full, NOT proved outside the fragments; the first is FALSE on the current tree outside them — see the C08
@@ -66,11 +76,16 @@
   --   theorem idcstar_sound : idcStar ordf dordf kordf G outs conds = .ok e → e ≠ .zero → M.Compatible G →
   --       EventWF M (outs ++ conds) → ν.Distinct → 0 < probEvent M ν conds →
   --       den M ν (outs ++ conds) e = probEvent M ν (outs ++ conds) / probEvent M ν conds
-  --     Proved on `InFragmentC` (no exchange) and `InFragmentX` (one factual condition exchanged by rule 2; all / no outcomes
-  --     descend from it).  Outside: (a) an exchange made while OTHER conditions remain is wrong in general on the current tree
-  --     (findings exchange:conditions / exchange:separation: the remaining conditions are neither re-subscripted nor conditioned on
-  --     in the separation test), a proof would need rule 2 with a non-empty conditioning set for functional SCMs (conditional
-  --     independence on the noise space) AND a repaired exchange; (b) one factual condition with SOME but not all outcomes descending
+  --     Proved on `InFragmentC` (no exchange, any number of conditions) and `InFragmentX` (one factual condition exchanged by rule 2;
+  --     all / no outcomes descend from it).  Outside: (a) SEVERAL CONDITIONS, one of them exchanged (`InFragmentXs`): since `fix:` 1834c39 the
+  --     graphical premise of rule 2 holds given the other conditions (`idcstar_exchange_licensed`, proved), so
+  --     P(γ | z, δ'') = P(γ_z | δ''_z) is a true statement of the do-calculus; what is NOT proved: (a1) rule 2 with a NON-EMPTY conditioning
+  --     set for functional SCMs on the noise space (`Fscm.prob_exchange_marginal` is the marginal case: it needs conditional independence
+  --     of noise coordinates given an event, not just independence of disjoint coordinates), (a2) the code continues with P(γ_z | δ'')
+  --     -- the remaining conditions keep no subscript -- which equals P(γ_z | δ''_z) only when no remaining condition descends from the
+  --     exchanged one; otherwise the answer is WRONG today (open finding exchange:conditions, pinned by the suite's figure-9a expectation),
+  --     so the full statement is false of the code on `InFragmentXs`; (a3) the recursive call is about a multi-world event (`Y_z`, `X`),
+  --     outside the fragments on which ID* is proved sound (C07); (b) one factual condition with SOME but not all outcomes descending
   --     from it: the exchange step itself is covered by `probEvent_rule2_fragX` + `Fscm.solve_nondescendant`, but the recursive call
   --     is about a two-world event (`Y_x`, `Y'`), outside the fragment on which ID* is proved sound (C07); (c) starred values /
   --     counterfactual inputs: ID* is wrong there today (F10), inherited; (d) the bound-range part of F11 in the final normalisation.
@@ -105,6 +120,7 @@ import Y0.Lemmas.CfIdcExch
 import Y0.Lemmas.CfIdcTermC
 import Y0.Lemmas.CfIdcOrder
 import Y0.Props.C07
+import Y0.Props.C04
 
 namespace Y0.Cf
 open Fscm
@@ -456,6 +472,94 @@ theorem idcstar_sound_fragment_exchange (M : Model) (ν : BaseValues) (dom : Nam
       obtain ⟨rfl, rfl⟩ := hcg
       exact ⟨(hsplit cf0 nev0 hcg0).1, hnone⟩
 
+/-! ## 2e. the exchange of line 4 is licensed by the premise of rule 2, given the other conditions (after `fix:` 1834c39) -/
+
+/-- the conditioning set of the rule-2 test for the outcome `o` and the condition `c` among the conditions `cs`: the OTHER
+conditions and the self-intervened nodes of the counterfactual graph, the two tested nodes excepted
+(`conditions - {outcome, condition}` in `cf_rule_2_of_do_calculus_applies`) -/
+def rule2Given (cf : MG Var) (cs : List Var) (o c : Var) : List Var :=
+  ((cs.filter (fun k => k ≠ c)) ++ cf.nodes.filter (fun n => !isNotSelfIntervened n)).filter (fun n => n ≠ o && n ≠ c)
+
+/-- **whenever line 4 exchanges a condition `c`, the graphical premise of rule 2 of the do-calculus holds for it GIVEN THE OTHER
+CONDITIONS**: every outcome `o ≠ c` is m-separated from `c` (there is no m-connecting path — the specification `MG.MConnPath` of
+property C04, not the algorithm) in the counterfactual graph without the edges leaving `c`, given the remaining conditions and the
+self-intervened nodes.  For every graph and every list of outcomes / conditions. -/
+theorem idcstar_exchange_licensed (cf : MG Var) (os cs : List Var) (c : Var)
+    (h : firstExchangeable cf os cs = .ok (some c)) (o : Var) (ho : o ∈ os) (hoc : o ≠ c) :
+    ¬ (cf.removeOutEdges [c]).MConnPath o c (rule2Given cf cs o c) := by
+  have hr := firstExchangeable_rule2 cf os cs c h
+  unfold rule2Applies at hr
+  have hd := allSeparated_true _ _ _ _ hr o ho
+  have hq : (cf.removeOutEdges [c]).ValidQuery o c (rule2Given cf cs o c) := by
+    by_contra hnq
+    have := MG.dsep_invalid _ o c _ hnq
+    unfold rule2Given at this
+    rw [this] at hd
+    cases hd
+  have hno : o ∉ rule2Given cf cs o c := by
+    intro hm
+    have := (List.mem_filter.1 hm).2
+    simp at this
+  have hnc : c ∉ rule2Given cf cs o c := by
+    intro hm
+    have := (List.mem_filter.1 hm).2
+    simp at this
+  exact (MG.dsep_iff_mseparated _ (MG.wf_removeOutEdges _ _) o c _ hq hoc hno hnc true hd).1 rfl
+
+/-- the WIDENED exchange fragment, as an executable test: an observational query (static part of `InFragmentC`: factual variables
+of the graph, unstarred values, no name on both sides) with at least one outcome and ANY number of conditions, on which line 4
+exchanges one of the conditions -/
+def inFragmentXsB (ordf : List World → List World) (G : MG Name) (O C : Event) : Bool :=
+  fragCStaticB G O C && !O.isEmpty &&
+  (match makeCounterfactualGraph ordf G (O ++ C) with
+   | .ok (cf, some _) => (match firstExchangeable cf O.keys C.keys with | .ok (some _) => true | _ => false)
+   | _ => false)
+
+def InFragmentXs (ordf : List World → List World) (G : MG Name) (O C : Event) : Prop := inFragmentXsB ordf G O C = true
+
+/-- **the widened exchange fragment, PARTIAL**: on an observational query with any number of conditions on which line 4 exchanges
+a condition, the exchanged `c` is one of the conditions and the premise of rule 2 holds for every outcome given the OTHER
+conditions.  (The semantic conclusion `value = P(outcomes ∧ conditions) / P(conditions)` is proved for one condition:
+`idcstar_sound_fragment_exchange`; for several it is OPEN (a) in the header — and false of the code when a remaining condition
+descends from the exchanged one.) -/
+theorem idcstar_sound_fragment_exchange_multi_partial (outcomes conditions : Event)
+    (hfr : InFragmentXs ordf G outcomes conditions) :
+    ∃ cf nev c, makeCounterfactualGraph ordf G (outcomes ++ conditions) = .ok (cf, some nev) ∧
+      firstExchangeable cf outcomes.keys conditions.keys = .ok (some c) ∧ c ∈ conditions.keys ∧
+      ∀ o ∈ outcomes.keys, ¬ (cf.removeOutEdges [c]).MConnPath o c (rule2Given cf conditions.keys o c) := by
+  unfold InFragmentXs inFragmentXsB at hfr
+  simp only [Bool.and_eq_true] at hfr
+  obtain ⟨⟨hst, _⟩, hdyn⟩ := hfr
+  have hfrC := fragC_of_static G hst
+  cases hcg : makeCounterfactualGraph ordf G (outcomes ++ conditions) with
+  | error err => rw [hcg] at hdyn; cases hdyn
+  | ok v =>
+    rcases v with ⟨cf, new⟩
+    rw [hcg] at hdyn
+    cases new with
+    | none => cases hdyn
+    | some nev =>
+      simp only at hdyn
+      cases hf : firstExchangeable cf outcomes.keys conditions.keys with
+      | error err => rw [hf] at hdyn; cases hdyn
+      | ok oc =>
+        rw [hf] at hdyn
+        cases oc with
+        | none => cases hdyn
+        | some c =>
+          have hc : c ∈ conditions.keys := firstExchangeable_mem _ _ _ _ hf
+          refine ⟨cf, nev, c, rfl, hf, hc, fun o ho => ?_⟩
+          exact idcstar_exchange_licensed cf _ _ c hf o ho (fun e => hfrC.disj o ho c hc (by rw [e]))
+
+/-- the widened fragment is not empty and is wider than `InFragmentX`: `P(Y = y | X = x, W = w)` on `W → X → Y` (W=2, X=0, Y=1; the
+loop exchanges `X`, given `W`) -/
+example : inFragmentXsB sortWorlds (MG.fromEdges [0, 1, 2] [(2, 0), (0, 1)] [])
+    [(Var.plain 1, ⟨1, false⟩)] [(Var.plain 0, ⟨0, false⟩), (Var.plain 2, ⟨2, false⟩)] = true := by decide
+/-- … and the collider witness of the repaired defect is OUTSIDE it now: `B → A`, `B ↔ A`, `A ↔ C` (A=0, B=1, C=2),
+`P(B = b | C = c, A = a)`: given the observed collider `A`, rule 2 applies neither to `C` nor to `A` -/
+example : inFragmentXsB sortWorlds (MG.fromEdges [0, 1, 2] [(1, 0)] [(1, 0), (0, 2)])
+    [(Var.plain 1, ⟨1, false⟩)] [(Var.plain 2, ⟨2, false⟩), (Var.plain 0, ⟨0, false⟩)] = false := by decide
+
 /-! ## 3. vocabulary (C06, IDC* part) -/
 
 /-- every estimand IDC* returns is built from single-world interventional terms -/
@@ -521,7 +625,7 @@ example : inFragmentXB sortWorlds (MG.fromEdges [0, 1, 2] [(2, 0), (2, 1), (0, 1
 fragment and `B = b` has probability `1/3` in that model for the base values `b = 0` -/
 example : inFragmentXB sortWorlds Example07.gBA [(Example07.A, ⟨0, false⟩)] [(Example07.B, ⟨1, false⟩)] = true := by decide
 example : probEvent Example07.mBA2 (fun _ _ => 0) [(Example07.B, ⟨1, false⟩)] = 1 / 3 := by
-  simp [probEvent, prob, space, conjunctOf, worldOf, ivValue, holds, solve, step, forced, update, Example07.mBA2,
+  simp [probEvent, prob, space, conjunctOf, worldOf, ivValue, holds, solve, Fscm.step, forced, update, Example07.mBA2,
     Example07.B, Var.plain, List.zipIdx]
   norm_num
 
